@@ -18,6 +18,8 @@ structure CoreDesc (σ : Type) where
   dbg      : String
   /-- spec: keystream block `i` -/
   ks       : Nat → Bytes
+  /-- keystream blocks `a, a+1, …, a+n-1` (the same values as `ks`, computed in one pass; for the driver's speed only) -/
+  ksRange  : Nat → Nat → List Bytes
   /-- spec: number of keystream blocks available (`none` = unbounded) -/
   limit    : Option Nat
   /-- spec: exported state after `blk` blocks -/
@@ -27,24 +29,38 @@ structure AnyCoreDesc where
   σ : Type
   D : CoreDesc σ
 
+/-- `E^k(x)` -/
+def iterEnc (C : Cipher) : Nat → Bytes → Bytes
+  | 0, x => x
+  | k + 1, x => iterEnc C k (C.enc x)
+
+/-- OFB keystream blocks `a … a+n-1` = `E^{a+1}(iv), E^{a+2}(iv), …` in one pass -/
+def ofbRange (C : Cipher) (iv : Bytes) (a n : Nat) : List Bytes :=
+  let rec go : Nat → Bytes → List Bytes
+    | 0, _ => []
+    | k + 1, x => let y := C.enc x; y :: go k y
+  go n (iterEnc C a iv)
+
 def coreDesc (C : Cipher) (mode : String) (iv : Bytes) : Option AnyCoreDesc :=
   match flavorOf mode with
   | some f => some ⟨_, {
       K := Ctr.core C f, init := Ctr.init C f iv, ivState := Ctr.ivState f, reinit := Ctr.init C f
       dbg := "Ctr" ++ toString f.w ++ (if f.be then "BE" else "LE") ++ "<Toy> { ... }"
-      ks := Spec.ctrKs C f iv, limit := some (Spec.ksLimitBlocks f.w)
+      ks := Spec.ctrKs C f iv, ksRange := fun a n => (List.range n).map fun j => Spec.ctrKs C f iv (a + j)
+      limit := some (Spec.ksLimitBlocks f.w)
       specState := fun blk => Spec.ctrBlock f iv blk }⟩
   | none =>
     match mode with
     | "belt" => some ⟨_, {
         K := Belt.core C, init := Belt.init C iv, ivState := Belt.ivState C, reinit := Belt.init C
         dbg := "BeltCtr<Toy> { ... }"
-        ks := Spec.beltKs C iv, limit := some (Spec.ksLimitBlocks 128)
+        ks := Spec.beltKs C iv, ksRange := fun a n => (List.range n).map fun j => Spec.beltKs C iv (a + j)
+        limit := some (Spec.ksLimitBlocks 128)
         specState := fun blk => C.dec (toLE 16 ((Spec.beltS0 C iv + blk) % 2 ^ 128)) }⟩
     | "ofb" => some ⟨_, {
         K := OfbCore.core C, init := Ofb.init C iv, ivState := Ofb.ivState C, reinit := Ofb.init C
         dbg := "OfbCore<Toy> { ... }"
-        ks := Spec.ofbKs C iv, limit := none
+        ks := Spec.ofbKs C iv, ksRange := ofbRange C iv, limit := none
         specState := fun blk => if blk = 0 then iv else Spec.ofbKs C iv (blk - 1) }⟩
     | _ => none
 
@@ -180,6 +196,16 @@ def coreImplMachine {σ : Type} (D : CoreDesc σ) (w : Nat) : Machine (Pool σ) 
 
 def ksByteOf {σ : Type} (D : CoreDesc σ) (p : Nat) : UInt8 := Spec.ksByte D.K.bs D.ks p
 
+/-- the keystream blocks a request `[q, q+len)` touches, from one pass (`ksRange`) -/
+def ksTable {σ : Type} (D : CoreDesc σ) (q len : Nat) : Array Bytes :=
+  let bs := D.K.bs
+  (D.ksRange (q / bs) ((q % bs + len + bs - 1) / bs)).toArray
+
+/-- the keystream byte function read from such a table (equal to `ksByteOf D` on `[q, q+len)`; the spec functions are
+    applied to it unchanged). The table is built by the caller, once per request. -/
+def ksByteTab (bs first : Nat) (table : Array Bytes) (p : Nat) : UInt8 :=
+  (table.getD (p / bs - first) []).getD (p % bs) 0
+
 def streamSpecMachine {σ : Type} (D : CoreDesc σ) : Machine (Pool Nat) where
   init := { insts := [0], cur := 0 }
   step := fun p toks =>
@@ -189,7 +215,8 @@ def streamSpecMachine {σ : Type} (D : CoreDesc σ) : Machine (Pool Nat) where
       let q := p.get 0
       let bs := D.K.bs
       let doApply (b : Bytes) (onErr : Bytes) : Pool Nat × String :=
-        match Spec.streamApply bs (ksByteOf D) D.limit q b with
+        let tab := ksTable D q b.length
+        match Spec.streamApply bs (ksByteTab bs (q / bs) tab) D.limit q b with
         | some r => (p.set r.1, "out " ++ toHex r.2)
         | none => (p, "err " ++ toHex onErr)
       match toks with
@@ -227,7 +254,9 @@ def streamSpecMachine {σ : Type} (D : CoreDesc σ) : Machine (Pool Nat) where
       | ["aliasks", n] =>
         -- the documented keystream from offset 0 (a fresh object of the public alias type)
         match n.toNat? with
-        | some k => (p, "out " ++ toHex (Spec.ksBytes (ksByteOf D) 0 k))
+        | some k =>
+          let tab := ksTable D 0 k
+          (p, "out " ++ toHex (Spec.ksBytes (ksByteTab bs 0 tab) 0 k))
         | none => (p, bad)
       | ["corestate"] =>
         if q % bs = 0 then (p, "state " ++ toHex (D.specState (q / bs))) else (p, "?")
@@ -250,7 +279,7 @@ def coreSpecMachine {σ : Type} (D : CoreDesc σ) : Machine (Pool (Nat × Nat)) 
       let bs := D.K.bs
       -- the core's block counter is a `cw`-bit integer and wraps (the core itself has no exhaustion check)
       let adv (k : Nat) : Pool (Nat × Nat) := p.set (st.1, if D.K.cw = 0 then st.2 + k else (st.2 + k) % 2 ^ D.K.cw)
-      let ksN (n : Nat) : Bytes := ((List.range n).map fun i => D.ks (blk + i)).flatten
+      let ksN (n : Nat) : Bytes := (D.ksRange blk n).flatten
       match toks with
       | ["ksblock"] => (adv 1, "out " ++ toHex (D.ks blk))
       | ["ksblocks", n] =>
